@@ -262,7 +262,83 @@ DEFAULT_OPTS = {
     'enable_summary': None, 'enable_summary_for_str': True, 'max_summary_len_for_str': 80,
     'enable_summary_tooltip': True, 'enable_key_tooltip': True, 'key_style': 'summary',
     'collapse_level': 1, 'uncollapse': [], 'name': None, 'include_keys': None, 'exclude_keys': None,
+    # option-level markup (root only) and colours
+    'title': None, 'css_classes': None, 'key_color': None, 'summary_color': None,
+    # node filters: None | {"pred": <pred>}
+    'highlight': None, 'lowlight': None,
+    # oracle-only options (no Lean model)
+    'child_config': None, 'extra_flags': None, 'debug': False,
 }
+MODEL_OPTS = ('enable_summary', 'enable_summary_for_str', 'max_summary_len_for_str', 'enable_summary_tooltip',
+              'enable_key_tooltip', 'key_style', 'collapse_level', 'uncollapse', 'name', 'include_keys',
+              'exclude_keys')
+
+
+def full_opts(o):
+  d = dict(DEFAULT_OPTS)
+  d.update(o)
+  return d
+
+
+def is_pred(x):
+  return isinstance(x, dict) and 'pred' in x
+
+
+def eval_pred(pred, path, spec):
+  """<pred> ::= {"all": true} | {"paths": [[key, ...], ...]} | {"depth": n} | {"type": "str"|"int"|...}
+             | {"not": pred} | {"or": [pred, pred]}"""
+  if 'all' in pred:
+    return True
+  if 'paths' in pred:
+    return any(len(q) == len(path) and all(a == b and type(a) is type(b) for a, b in zip(q, path))
+               for q in pred['paths'])
+  if 'depth' in pred:
+    return len(path) == pred['depth']
+  if 'type' in pred:
+    return spec['t'] == pred['type']
+  if 'not' in pred:
+    return not eval_pred(pred['not'], path, spec)
+  if 'or' in pred:
+    return any(eval_pred(q, path, spec) for q in pred['or'])
+  raise ValueError(pred)
+
+
+def map_pred(pred, rekey):
+  if 'paths' in pred:
+    return {'paths': [[rekey(k) for k in q] for q in pred['paths']]}
+  if 'not' in pred:
+    return {'not': map_pred(pred['not'], rekey)}
+  if 'or' in pred:
+    return {'or': [map_pred(q, rekey) for q in pred['or']]}
+  return pred
+
+
+SPEC_TYPE = {'str': str, 'int': int, 'float': float, 'bool': bool, 'none': type(None), 'dict': dict,
+             'list': list, 'tuple': tuple}
+
+
+def py_pred(pred, rekey=lambda k: k):
+  """The Python callable (path, value, parent) -> bool for a <pred>."""
+  pred = map_pred(pred, rekey)
+
+  def value_type(v):
+    import pyglove as pg
+    if isinstance(v, bool):
+      return 'bool'
+    if isinstance(v, pg.Dict):
+      return 'pgdict'
+    if isinstance(v, pg.List):
+      return 'pglist'
+    if isinstance(v, pg.Object):
+      return 'obj'
+    for n, t in SPEC_TYPE.items():
+      if type(v) is t:
+        return n
+    return '?'
+
+  def fn(path, value, parent):
+    return eval_pred(pred, list(path.keys), {'t': value_type(value)})
+  return fn
 OBJ_FIELDS = {'Foo': ['x', 'y'], 'BarBaz': ['items', 'note'], 'Leaf': ['v']}
 
 
@@ -388,6 +464,134 @@ def gen_opts(rng, value):
   return o
 
 
+CSS = ['my-class', 'a', 'b-c', 'pyglove', 'str', 'x1']
+COLORS = ['red', '#fff', 'rgb(1, 2, 3)', 'darkblue', None]
+TITLES = ['My title', 'T', 'a - b', 'Foo(...)']
+
+
+def gen_pred(rng, value):
+  paths = all_paths(value)
+  r = rng.below(10)
+  if r < 2:
+    return {'all': True}
+  if r < 6:
+    return {'paths': [rng.choice(paths) for _ in range(rng.randint(1, 3))]}
+  if r < 8:
+    return {'depth': rng.randint(1, 2)}
+  if r == 8:
+    return {'type': rng.choice(['str', 'int', 'dict', 'list', 'obj', 'pgdict'])}
+  return {'not': {'depth': rng.randint(1, 2)}}
+
+
+def gen_color(rng, value, allow_fn=True):
+  if allow_fn and rng.chance(0.35):
+    return {'pred': gen_pred(rng, value), 'then': [rng.choice(COLORS), rng.choice(COLORS)],
+            'else': [rng.choice(COLORS), rng.choice(COLORS)]}
+  return [rng.choice(COLORS), rng.choice(COLORS)]
+
+
+def gen_xopts(rng, value):
+  """Option records that also use the option-level markup (title, css classes, colours), the node
+  filters (highlight / lowlight, also overlapping), callable options, child_config, extra_flags and
+  debug."""
+  o = gen_opts(rng, value)
+  keys = child_keys(value)
+  if rng.chance(0.3):
+    o['title'] = rng.choice(TITLES)
+  if rng.chance(0.3):
+    o['css_classes'] = [rng.choice(CSS) for _ in range(rng.randint(1, 3))]
+  if rng.chance(0.4):
+    o['key_color'] = gen_color(rng, value)
+  if rng.chance(0.3):
+    o['summary_color'] = gen_color(rng, value)
+    if o['name'] is None and rng.chance(0.7):
+      o['name'] = rng.choice(BENIGN + [gen_string(rng)])
+  r = rng.below(10)
+  if r < 3:
+    o['highlight'] = {'pred': gen_pred(rng, value)}
+  elif r < 5:
+    o['lowlight'] = {'pred': gen_pred(rng, value)}
+  elif r < 8:          # both, overlapping on purpose half of the time
+    p = gen_pred(rng, value)
+    o['highlight'] = {'pred': p}
+    o['lowlight'] = {'pred': p if rng.chance(0.5) else gen_pred(rng, value)}
+  if rng.chance(0.2):
+    o['include_keys'] = {'pred': gen_pred(rng, value)}
+  if rng.chance(0.2):
+    o['exclude_keys'] = {'pred': gen_pred(rng, value)}
+  if rng.chance(0.25):
+    o['key_style'] = {'pred': gen_pred(rng, value)}
+  if rng.chance(0.15):
+    o['uncollapse'] = {'pred': gen_pred(rng, value)}
+  if keys and rng.chance(0.25):
+    cc = []
+    plain = [k for k in keys if isinstance(k, str) and k and not any(c in k for c in '.[]')]
+    # keys that are not plain names (int indices, path-like strings) hit finding F60; keep them rare
+    pool = keys if (rng.chance(0.08) or not plain) else plain
+    for k in rng.sample(pool, rng.randint(1, min(2, len(pool)))) + (['__default__'] if rng.chance(0.3) else []):
+      conf = {}
+      for f in rng.sample(['collapse_level', 'enable_summary_tooltip', 'enable_key_tooltip', 'key_color', 'title',
+                           'css_classes', 'uncollapse'], rng.randint(1, 3)):
+        if f == 'collapse_level':
+          conf[f] = rng.choice([None, 0, 1, 2])
+        elif f in ('enable_summary_tooltip', 'enable_key_tooltip'):
+          conf[f] = rng.chance(0.5)
+        elif f == 'key_color':
+          conf[f] = gen_color(rng, value, allow_fn=False)
+        elif f == 'title':
+          conf[f] = rng.choice(TITLES)
+        elif f == 'css_classes':
+          conf[f] = [rng.choice(CSS)]
+        else:
+          conf[f] = [[rng.choice(BENIGN)]]
+      cc.append([k, conf])
+    o['child_config'] = cc
+  if rng.chance(0.2):
+    o['extra_flags'] = rng.choice([{'hide_default_values': True}, {'use_inferred': True}, {'my_flag': 1},
+                                   {'hide_frozen': False}])
+  if rng.chance(0.12):
+    o['debug'] = True
+  return o
+
+
+def gen_control(rng):
+  k = rng.below(4)
+  css = lambda: [rng.choice(CSS) for _ in range(rng.below(3))]
+  styles = lambda: [[k2, rng.choice(['red', '3px', None])] for k2 in rng.sample(['color', 'margin_top', 'width'], rng.below(3))]
+  if k == 0:
+    return {'op': 'control', 'kind': 'label', 'text': gen_string(rng),
+            'tooltip': gen_string(rng) if rng.chance(0.6) else None,
+            'link': rng.choice(['http://x/y', 'http://x/?a=1&amp;b=2']) if rng.chance(0.3) else None,
+            'target': '_blank' if rng.chance(0.2) else None,
+            'id': rng.choice(['my-id', 'L1']) if rng.chance(0.3) else None,
+            'css': css(), 'styles': styles(), 'interactive': rng.chance(0.3)}
+  if k == 1:
+    return {'op': 'control', 'kind': 'tooltip', 'text': gen_string(rng),
+            'id': 'T1' if rng.chance(0.3) else None, 'css': css(), 'styles': styles()}
+  if k == 2:
+    n = rng.randint(1, 3)
+    total = rng.choice([None, 10, 7])
+    return {'op': 'control', 'kind': 'progress',
+            'names': [rng.choice([gen_string(rng), 'FooBar', 'Succeeded', 'x y']) for _ in range(n)],
+            'values': [rng.randint(0, 3) for _ in range(n)], 'total': total, 'sub_css': [css() for _ in range(n)]}
+  n = rng.randint(1, 3)
+  return {'op': 'control', 'kind': 'tab', 'labels': [gen_string(rng) for _ in range(n)],
+          'tooltips': [gen_string(rng) if rng.chance(0.3) else None for _ in range(n)],
+          'contents': [rng.choice(['<b>c</b>', 'plain', '<div><i>n</i></div>', html_lib.escape(gen_string(rng))])
+                       for _ in range(n)],
+          'selected': rng.below(n), 'left': rng.chance(0.4), 'id': 'TT' if rng.chance(0.3) else None,
+          'css': css(), 'styles': styles(), 'tab_css': [css() for _ in range(n)]}
+
+
+CONTROL_ID = re.compile(r'control-\d+')
+
+
+def canon_ids(html):
+  """Addresses never cross the protocol: control-<id(self)> -> control-<k>, k by first appearance."""
+  seen = {}
+  return CONTROL_ID.sub(lambda m: 'control-%d' % seen.setdefault(m.group(0), len(seen)), html)
+
+
 HTML_FRAGMENTS = ['<b>x</b>', '<span class="a">t</span>', 'plain', '&amp;', '<div><i>n</i></div>', '',
                   '<i>', '</i>', '<', '<div', 'a<b', '<span class=a>x</span>', "<span class='a'>x</span>",
                   '<span  class="a">x</span>', '<span class="a" >x</span>', '<span/>', '<br>', '</ div>',
@@ -497,8 +701,10 @@ class C20(Prop):
       if v['t'] in ('str', 'int', 'float', 'bool', 'none') and rng.chance(0.7):
         v = gen_value(rng, 2)
       yield {'op': 'render', 'value': v, 'opts': dict(DEFAULT_OPTS)}
-      for _ in range(5):
+      for _ in range(3):
         yield {'op': 'render', 'value': v, 'opts': gen_opts(rng, v)}
+      for _ in range(3):
+        yield {'op': 'render', 'value': v, 'opts': gen_xopts(rng, v)}
     if not quick:
       # every hostile string in every site x option toggles
       for h in HOSTILE + PATHY:
@@ -521,19 +727,8 @@ class C20(Prop):
                   if cl == 0:
                     o['name'] = h
                   yield {'op': 'render', 'value': v, 'opts': o}
-    for _ in range(60 if quick else 1500):
-      k = rng.below(4)
-      if k == 0:
-        yield {'op': 'control', 'kind': 'label', 'text': gen_string(rng),
-               'tooltip': gen_string(rng) if rng.chance(0.6) else None,
-               'link': 'http://x/y' if rng.chance(0.3) else None}
-      elif k == 1:
-        yield {'op': 'control', 'kind': 'tooltip', 'text': gen_string(rng)}
-      elif k == 2:
-        yield {'op': 'control', 'kind': 'progress',
-               'names': [gen_string(rng) for _ in range(rng.randint(1, 3))], 'total': rng.choice([None, 10])}
-      else:
-        yield {'op': 'control', 'kind': 'tab', 'labels': [gen_string(rng) for _ in range(rng.randint(1, 3))]}
+    for _ in range(160 if quick else 3000):
+      yield gen_control(rng)
 
   # -- model side ---------------------------------------------------------------------------
   def model_request(self, case):
@@ -549,17 +744,90 @@ class C20(Prop):
               'props': [[cps(k), None if v is None else cps(v)] for k, v in case['props']],
               'children': [cps(x) for x in case['children']]}
     if op == 'render':
+      o = full_opts(case['opts'])
+      if not self.modelled(o):
+        return None
       tree = self._model_tree(case)
       if tree is None:
         return None
-      o = case['opts']
-      wire_opts = dict(o)
+      wire_opts = {k: o[k] for k in MODEL_OPTS}
+      for f in ('highlight', 'lowlight'):
+        wire_opts[f] = [] if o[f] is None else [[key_wire(k) for k in q] for q in o[f]['pred']['paths']]
+      for f in ('key_color', 'summary_color'):
+        wire_opts[f] = None if o[f] is None else [None if x is None else cps(x) for x in o[f]]
+      wire_opts['title'] = None if o['title'] is None else cps(o['title'])
+      wire_opts['css_classes'] = [cps(x) for x in (o['css_classes'] or [])]
       wire_opts['uncollapse'] = [[key_wire(k) for k in p] for p in o['uncollapse']]
       wire_opts['name'] = None if o['name'] is None else key_wire(o['name'])
       for f in ('include_keys', 'exclude_keys'):
         wire_opts[f] = None if o[f] is None else [key_wire(k) for k in o[f]]
       return {'op': 'render', 'opts': wire_opts, 'tree': tree}
+    if op == 'control':
+      return self._control_request(case)
     return None
+
+  def _control_request(self, case):
+    self.setup_impl()
+    from pyglove.core import utils
+    ocps = lambda x: None if x is None else cps(x)
+    kvs = lambda l: [[cps(k), ocps(v)] for k, v in (l or [])]
+
+    def label(text, tooltip=None, link=None, target=None, id=None, tip_id=None, css=(), styles=()):
+      return {'text': cps(text), 'tooltip': ocps(tooltip), 'link': ocps(link), 'target': ocps(target),
+              'id': ocps(id), 'tip_id': ocps(tip_id), 'css': [cps(x) for x in css], 'styles': kvs(styles)}
+
+    k = case['kind']
+    if k == 'label':
+      inter = case.get('interactive', False)
+      lid = case.get('id') or ('control-0' if inter else None)
+      n_auto = 1 if (inter and not case.get('id')) else 0
+      tip_id = ('control-%d' % n_auto) if (inter and case.get('tooltip') is not None) else None
+      return {'op': 'control', 'kind': 'label',
+              'label': label(case['text'], case.get('tooltip'), case.get('link'), case.get('target'), lid, tip_id,
+                             case.get('css', []), case.get('styles', []))}
+    if k == 'tooltip':
+      return {'op': 'control', 'kind': 'tooltip', 'text': cps(case['text']), 'id': ocps(case.get('id')),
+              'css': [cps(x) for x in case.get('css', [])], 'styles': kvs(case.get('styles', []))}
+    if k == 'progress':
+      names, total = case['names'], case['total']
+      values = case.get('values') or [0] * len(names)
+      sub_css = case.get('sub_css') or [[] for _ in names]
+      subs = [{'css_name': cps(utils.camel_to_snake(n, '-')),
+               'width': None if total is None else cps('%s' % format(v / total, '.0%')),
+               'id': cps('control-%d' % i), 'css': [cps(x) for x in sub_css[i]]}
+              for i, (n, v) in enumerate(zip(names, values))]
+      done = sum(values)
+      text = 'n/a' if total is None else '%s (%d/%d)' % (format(done / total, ' .1%'), done, total)
+      tip = 'Not started' if total is None else '\n'.join(
+          '%s: %s (%d/%d)' % (n, format(v / total, '.1%'), v, total) for n, v in zip(names, values))
+      n = len(names)
+      return {'op': 'control', 'kind': 'progress', 'subs': subs,
+              'label': label(text, tip, id='control-%d' % n, tip_id='control-%d' % (n + 1), css=['progress-label'])}
+    cid = case.get('id')
+    base = cid or 'control-0'
+    child = lambda c: cid if cid else '%s-%s' % (base, c)
+    tips = case.get('tooltips') or [None] * len(case['labels'])
+    contents = case.get('contents') or ['<b>c</b>'] * len(case['labels'])
+    tab_css = case.get('tab_css') or [[] for _ in case['labels']]
+    return {'op': 'control', 'kind': 'tab', 'ctl_id': cps(base), 'bg_id': cps(child('button-group')),
+            'cg_id': cps(child('content-group')), 'left': bool(case.get('left')), 'selected': case.get('selected', 0),
+            'css': [cps(x) for x in case.get('css', [])], 'styles': kvs(case.get('styles', [])),
+            'tabs': [{'label': label(l, tips[i]), 'content': cps(contents[i]), 'css': [cps(x) for x in tab_css[i]],
+                      'id': cps(child(str(i)))} for i, l in enumerate(case['labels'])]}
+
+  @staticmethod
+  def modelled(o):
+    """Is this option record inside the Lean model? Callable options other than path-set
+    highlight / lowlight filters, child_config, extra_flags and debug are checked by the oracle only."""
+    o = full_opts(o)
+    if o['child_config'] is not None or o['extra_flags'] is not None or o['debug']:
+      return False
+    if any(is_pred(o[k]) for k in MODEL_OPTS + ('key_color', 'summary_color')):
+      return False
+    for f in ('highlight', 'lowlight'):
+      if o[f] is not None and set(o[f]['pred']) != {'paths'}:
+        return False
+    return True
 
   def _model_tree(self, case):
     """The model's input tree: shape of the value + the strings utils.format yields for it
@@ -650,15 +918,59 @@ class C20(Prop):
 
   def _kwargs(self, o, rekey=lambda k: k):
     from pyglove.core import utils
+    o = full_opts(o)
     kw = {k: o[k] for k in ('enable_summary', 'enable_summary_for_str', 'max_summary_len_for_str',
-                             'enable_summary_tooltip', 'enable_key_tooltip', 'key_style', 'collapse_level')}
-    kw['uncollapse'] = [utils.KeyPath([rekey(k) for k in p]) for p in o['uncollapse']]
+                             'enable_summary_tooltip', 'enable_key_tooltip', 'collapse_level')}
+
+    def color(c):
+      if c is None:
+        return None
+      if is_pred(c):
+        fn, a, b = py_pred(c['pred'], rekey), tuple(c['then']), tuple(c['else'])
+        return lambda path, value, parent: a if fn(path, value, parent) else b
+      return tuple(c)
+
+    ks = o['key_style']
+    if is_pred(ks):
+      fn = py_pred(ks['pred'], rekey)
+      kw['key_style'] = lambda path, value, parent: 'label' if fn(path, value, parent) else 'summary'
+    else:
+      kw['key_style'] = ks
+    if is_pred(o['uncollapse']):
+      kw['uncollapse'] = py_pred(o['uncollapse']['pred'], rekey)
+    else:
+      kw['uncollapse'] = [utils.KeyPath([rekey(k) for k in p]) for p in o['uncollapse']]
     if o['name'] is not None:
       kw['name'] = rekey(o['name'])
-    if o['include_keys'] is not None:
-      kw['include_keys'] = [rekey(k) for k in o['include_keys']]
-    if o['exclude_keys'] is not None:
-      kw['exclude_keys'] = [rekey(k) for k in o['exclude_keys']]
+    for f in ('include_keys', 'exclude_keys'):
+      if is_pred(o[f]):
+        kw[f] = py_pred(o[f]['pred'], rekey)
+      elif o[f] is not None:
+        kw[f] = [rekey(k) for k in o[f]]
+    for f in ('highlight', 'lowlight'):
+      if o[f] is not None:
+        kw[f] = py_pred(o[f]['pred'], rekey)
+    for f in ('key_color', 'summary_color'):
+      if o[f] is not None:
+        kw[f] = color(o[f])
+    if o['title'] is not None:
+      kw['title'] = o['title']
+    if o['css_classes'] is not None:
+      kw['css_classes'] = list(o['css_classes'])
+    if o['child_config'] is not None:
+      cc = {}
+      for k, conf in o['child_config']:
+        conf = dict(conf)
+        if 'key_color' in conf:
+          conf['key_color'] = color(conf['key_color'])
+        if 'uncollapse' in conf:
+          conf['uncollapse'] = [utils.KeyPath([rekey(x) for x in q]) for q in conf['uncollapse']]
+        cc[k if k == '__default__' else rekey(k)] = conf
+      kw['child_config'] = cc
+    if o['extra_flags'] is not None:
+      kw['extra_flags'] = dict(o['extra_flags'])
+    if o['debug']:
+      kw['debug'] = True
     return kw
 
   @staticmethod
@@ -726,8 +1038,9 @@ class C20(Prop):
       return {'build_error': type(e).__name__}
     before = self._snapshot(value)
     try:
-      content = pg.to_html_str(value, content_only=True, **self._kwargs(case['opts']))
-      full = pg.to_html_str(value, **self._kwargs(case['opts']))
+      kwargs = self._kwargs(case['opts'])      # built once: callables keep their identity (debug prints them)
+      content = pg.to_html_str(value, content_only=True, **kwargs)
+      full = pg.to_html_str(value, **kwargs)
     except Exception as e:   # pylint: disable=broad-except
       return {'error': type(e).__name__, 'message': str(e)[:200]}
     out['unchanged'] = self._snapshot(value) == before
@@ -744,7 +1057,7 @@ class C20(Prop):
     # benign twin of the same shape, same options
     table = {}
     bspec = self._benign(case['value'], table)
-    bopts = dict(case['opts'])
+    bopts = full_opts(case['opts'])
     rekey = lambda k: self._rekey(k, table)
     try:
       bvalue = self._build(bspec)
@@ -766,20 +1079,30 @@ class C20(Prop):
 
   def _missing(self, case, texts):
     """Keys and leaf texts of the displayed tree that are not the content of a text node."""
-    o = case['opts']
+    o = full_opts(case['opts'])
     have = set(texts)
     missing = []
+    hide_defaults = bool((o['extra_flags'] or {}).get('hide_default_values'))
 
-    def displayed_children(spec, root):
+    def same(a, b):
+      return a == b and type(a) is type(b)
+
+    def displayed_children(spec, path):
       ks = child_keys(spec)
-      if root:
-        if o['include_keys'] is not None:
-          ks = [k for k in o['include_keys'] if any(k == kk and type(k) is type(kk) for kk in ks)]
-        if o['exclude_keys'] is not None:
-          ks = [k for k in ks if not any(k == e and type(k) is type(e) for e in o['exclude_keys'])]
+      inc, exc = o['include_keys'], o['exclude_keys']
+      if is_pred(inc):          # callable filters are inherited by every level
+        ks = [k for k in ks if eval_pred(inc['pred'], path + [k], child(spec, k))]
+      elif inc is not None and not path:
+        ks = [k for k in inc if any(same(k, kk) for kk in ks)]
+      if is_pred(exc):
+        ks = [k for k in ks if not eval_pred(exc['pred'], path + [k], child(spec, k))]
+      elif exc is not None and not path:
+        ks = [k for k in ks if not any(same(k, e) for e in exc)]
+      if hide_defaults and spec['t'] == 'obj':
+        ks = [k for k in ks if child(spec, k)['t'] != 'none']     # every field defaults to None
       return ks
 
-    def visit(spec, root):
+    def visit(spec, path):
       t = spec['t']
       if t in ('str', 'int', 'float', 'bool', 'none'):
         if t == 'str':
@@ -795,10 +1118,12 @@ class C20(Prop):
           missing.append({'what': 'leaf', 'text': shown})
         return
       seq = t in ('list', 'tuple', 'pglist')
-      label = seq or o['key_style'] == 'label'
-      for k in displayed_children(spec, root):
+      for k in displayed_children(spec, path):
         c = child(spec, k)
-        if label:
+        ks = o['key_style']
+        if is_pred(ks):
+          ks = 'label' if eval_pred(ks['pred'], path + [k], c) else 'summary'
+        if seq or ks == 'label':
           shown = str(k)
           dropped = False
         else:
@@ -808,9 +1133,9 @@ class C20(Prop):
           dropped = (es is False) or (es is None and not o['enable_summary_for_str'] and c['t'] == 'str')
         if shown and shown not in have:
           missing.append({'what': 'key', 'text': shown, 'summary_disabled': dropped})
-        visit(c, False)
+        visit(c, path + [k])
 
-    visit(case['value'], True)
+    visit(case['value'], [])
     return missing
 
   def _impl_control(self, case):
@@ -819,24 +1144,42 @@ class C20(Prop):
 
     def build(f):
       k = case['kind']
+      st = lambda l: {a: b for a, b in (l or [])}
       if k == 'label':
         return controls.Label(f(case['text']), tooltip=None if case['tooltip'] is None else f(case['tooltip']),
-                              link=case['link'])
+                              link=case['link'], target=case.get('target'), id=case.get('id'),
+                              css_classes=list(case.get('css', [])), styles=st(case.get('styles')),
+                              interactive=case.get('interactive', False))
       if k == 'tooltip':
-        return controls.Tooltip(f(case['text']), for_element='.x')
+        return controls.Tooltip(f(case['text']), for_element='.x', id=case.get('id'),
+                                css_classes=list(case.get('css', [])), styles=st(case.get('styles')))
       if k == 'progress':
-        return controls.ProgressBar(subprogresses=[controls.SubProgress(f(n)) for n in case['names']],
-                                    total=case['total'])
-      return controls.TabControl([controls.Tab(f(l), pg.Html('<b>c</b>')) for l in case['labels']])
+        values = case.get('values') or [0] * len(case['names'])
+        sub_css = case.get('sub_css') or [[] for _ in case['names']]
+        return controls.ProgressBar(
+            subprogresses=[controls.SubProgress(f(n), v, css_classes=list(sub_css[i]))
+                           for i, (n, v) in enumerate(zip(case['names'], values))],
+            total=case['total'])
+      tips = case.get('tooltips') or [None] * len(case['labels'])
+      contents = case.get('contents') or ['<b>c</b>'] * len(case['labels'])
+      tab_css = case.get('tab_css') or [[] for _ in case['labels']]
+      return controls.TabControl(
+          [controls.Tab(controls.Label(f(l), tooltip=None if tips[i] is None else f(tips[i])),
+                        pg.Html(contents[i]), css_classes=list(tab_css[i]))
+           for i, l in enumerate(case['labels'])],
+          selected=case.get('selected', 0), tab_position='left' if case.get('left') else 'top',
+          id=case.get('id'), css_classes=list(case.get('css', [])), styles=st(case.get('styles')))
 
     try:
       h = build(lambda s: s).to_html_str(content_only=True)
       b = build(lambda s: 'x' * len(s)).to_html_str(content_only=True)
     except Exception as e:   # pylint: disable=broad-except
       return {'error': type(e).__name__, 'message': str(e)[:200]}
+    h = canon_ids(h)
     tree, why = strict_parse(h)
     btree, bwhy = strict_parse(b)
-    out = {'why': why, 'benign_ok': btree is not None, 'ok': tree is not None}
+    out = {'why': why, 'benign_ok': btree is not None, 'ok': tree is not None,
+           'model': {'html': h, 'doc': None if tree is None else strip_doc(tree)}}
     if tree is not None and btree is not None:
       sk = lambda t: [[n[0], [k for k, _ in n[1]], sk(n[2])] for n in t if isinstance(n, list)]
       out['skeleton_equal'] = sk(tree) == sk(btree)
@@ -846,6 +1189,8 @@ class C20(Prop):
       out['missing'] = [w for w in want if w and w not in texts]
       if case['kind'] == 'label' and case['tooltip']:
         out['missing'] += [w for w in [case['tooltip']] if w not in texts]
+      if case['kind'] == 'tab':
+        out['missing'] += [w for w in (case.get('tooltips') or []) if w and w not in texts]
     return out
 
   # -- comparison ----------------------------------------------------------------------------
@@ -896,9 +1241,17 @@ class C20(Prop):
     if 'build_error' in out:
       return {'signature': 'value-construction-raises:' + out['build_error'], 'what': 'building the value raised'}
     if 'error' in out:
-      if out['error'] == 'TypeError' and '$' in [k for p in all_paths(case['value']) for k in p] and case['opts']['uncollapse']:
+      if out['error'] == 'TypeError' and '$' in [k for p in all_paths(case['value']) for k in p] and full_opts(case['opts'])['uncollapse']:
         return {'signature': 'render-raises:TypeError:dollar-key-with-uncollapse',
                 'what': 'a value with the key "$" cannot be rendered once `uncollapse` is non-empty (KeyPathSet end marker, F19)'}
+      cc = full_opts(case['opts'])['child_config']
+      if cc and is_pred(full_opts(case['opts'])['uncollapse']) and out['error'] == 'ValueError' \
+          and 'KeyPathSet' in (out.get('message') or ''):
+        return {'signature': 'render-raises:callable-uncollapse-with-child-config',
+                'what': 'a callable `uncollapse` together with child_config: %s' % out.get('message')}
+      if cc and any(not (isinstance(k, str) and k and not any(c in k for c in '.[]')) for k, _ in cc):
+        return {'signature': 'render-raises:child-config-key-not-a-plain-name',
+                'what': 'child_config keyed by an int index or a path-like string: %s: %s' % (out['error'], out.get('message'))}
       return {'signature': 'render-raises:' + out['error'],
               'what': 'pg.to_html_str raised %s: %s' % (out['error'], out.get('message'))}
     if out['model']['doc'] is None:
@@ -907,6 +1260,13 @@ class C20(Prop):
       return {'signature': 'document-not-well-formed', 'what': 'whole document is not well-formed: %s' % out['full_why']}
     if not out.get('body_matches', True):
       return {'signature': 'body-differs-from-content', 'what': '<body> of the whole document is not the content'}
+    cc = full_opts(case['opts'])['child_config']
+    cc_nonplain = bool(cc) and any(not (isinstance(k, str) and k and not any(c in k for c in '.[]')) for k, _ in cc)
+    if cc_nonplain and (not out.get('benign_ok') or out.get('new_tags') or out.get('new_attrs')
+                        or not out.get('skeleton_equal', True)):
+      # F60: the entry is not applied to the hostile key but is applied to the twin's plain key
+      return {'signature': 'child-config-key-not-a-plain-name:misapplied',
+              'what': 'child_config keyed by an int index or a path-like string is applied differently than for a plain key'}
     if not out.get('benign_ok'):
       return {'signature': 'benign-twin-fails', 'what': 'benign input of the same shape: %s' % out.get('benign_why')}
     if out.get('new_tags') or out.get('new_attrs'):
@@ -914,6 +1274,10 @@ class C20(Prop):
               'what': 'elements %s / attributes %s do not occur for benign input of the same shape' % (
                   out.get('new_tags'), out.get('new_attrs'))}
     if not out.get('skeleton_equal', True):
+      cc = full_opts(case['opts'])['child_config']
+      if cc and any(not (isinstance(k, str) and k and not any(c in k for c in '.[]')) for k, _ in cc):
+        return {'signature': 'child-config-key-not-a-plain-name:misapplied',
+                'what': 'child_config keyed by an int index or a path-like string is applied differently than for a plain key'}
       return {'signature': 'data-changes-structure', 'what': 'element structure differs from benign input of the same shape'}
     for m in out.get('missing', []):
       if m['what'] == 'key' and m.get('summary_disabled'):
@@ -947,10 +1311,11 @@ class C20(Prop):
       return any(has_meta(c) for c in case['children'])
     if op == 'render':
       ss = strings_of(case['value'])
-      if isinstance(case['opts']['name'], str):
+      if isinstance(case['opts'].get('name'), str):
         ss.append(case['opts']['name'])
       return any(has_meta(s) for s in ss)
-    return any(has_meta(s) for s in [case.get('text') or ''] + case.get('names', []) + case.get('labels', []))
+    return any(has_meta(s) for s in [case.get('text') or '', case.get('tooltip') or ''] + case.get('names', [])
+               + case.get('labels', []) + [t or '' for t in case.get('tooltips') or []])
 
   def describe(self, case, out):
     op = case['op']
@@ -963,7 +1328,7 @@ class C20(Prop):
     elif op == 'control':
       h.append('control:' + case['kind'])
     elif op == 'render':
-      v, o = case['value'], case['opts']
+      v, o = case['value'], full_opts(case['opts'])
       h.append('root:' + v['t'])
       h.append('depth:%d' % depth_of(v))
       h.append('size:%s' % ('1' if size_of(v) == 1 else '2-5' if size_of(v) <= 5 else '6-15' if size_of(v) <= 15 else '16+'))
@@ -977,13 +1342,23 @@ class C20(Prop):
         h.append('has-pathlike-key-or-string')
       for k in ('enable_summary', 'enable_summary_for_str', 'enable_summary_tooltip', 'enable_key_tooltip',
                 'key_style', 'collapse_level'):
-        if o[k] != DEFAULT_OPTS[k]:
+        if o[k] != DEFAULT_OPTS[k] and not is_pred(o[k]):
           h.append('opt:%s=%s' % (k, o[k]))
       if o['max_summary_len_for_str'] != 80:
         h.append('opt:max_summary_len_for_str')
       for k in ('uncollapse', 'name', 'include_keys', 'exclude_keys'):
         if o[k]:
           h.append('opt:' + k)
+      for k in ('title', 'css_classes', 'key_color', 'summary_color', 'highlight', 'lowlight', 'child_config',
+                'extra_flags', 'debug'):
+        if o[k]:
+          h.append('opt:' + k + (':callable' if is_pred(o[k]) and k.endswith('color') else ''))
+      for k in ('include_keys', 'exclude_keys', 'key_style', 'uncollapse'):
+        if is_pred(o[k]):
+          h.append('opt:' + k + ':callable')
+      if o['highlight'] and o['lowlight']:
+        h.append('opt:highlight+lowlight')
+      h.append('modelled' if self.modelled(o) else 'oracle-only-options')
       if o == DEFAULT_OPTS:
         h.append('opts:default')
       if 'error' in out:
@@ -998,7 +1373,7 @@ class C20(Prop):
     v = case['value']
     # drop options one by one
     for k, d in DEFAULT_OPTS.items():
-      if case['opts'][k] != d:
+      if case['opts'].get(k, d) != d:
         c = json.loads(json.dumps(case))
         c['opts'][k] = d
         yield c
